@@ -93,6 +93,8 @@ def same_state(mi, snap, what):
         if not np.array_equal(g, v):
             j = int(np.argwhere(g.reshape(-1) != v.reshape(-1))[0][0])
             return f"{what}: block {t} differs at flat index {j}: id {g.reshape(-1)[j]} where {v.reshape(-1)[j]} was put in"
+        if str(g.dtype) != snap["dtypes"][t] and not snap["dtypes"][t].startswith("int"):  # integer payloads may legitimately come back as float32
+            return f"{what}: block {t} came back as {g.dtype}, was {snap['dtypes'][t]}"
     return None
 
 
@@ -106,7 +108,20 @@ def run(case, ctx):
     return run_saveload(case, ctx)
 
 
+REPS = ("float32", "float32", "float32", "int32", "float64-x64")
+
+
 def run_chain(case, ctx):
+    import contextlib
+    import jax
+
+    # payload representation: float32 ids (default), int32 ids, float64 ids in x64 mode that do not fit float32
+    rep = REPS[case["i"] % len(REPS)]
+    with (jax.enable_x64() if rep == "float64-x64" else contextlib.nullcontext()):
+        return _run_chain(case, ctx, rep)
+
+
+def _run_chain(case, ctx, rep):
     import jax
     import jax.numpy as jnp
     import ginjax.geometric as geom
@@ -127,7 +142,8 @@ def run_chain(case, ctx):
         c = int(rng.integers(1, 5))
         shp = (lead + (c,) if n_lead >= 1 else ()) + sp + (D,) * k
         n = int(np.prod(shp))
-        blocks[(k, p)] = jnp.asarray((nid + np.arange(n)).reshape(shp).astype(np.float32))
+        base = (2.0**31 + 0.5) if rep == "float64-x64" else 0
+        blocks[(k, p)] = jnp.asarray((base + nid + np.arange(n)).reshape(shp).astype({"int32": np.int32, "float64-x64": np.float64}.get(rep, np.float32)))
         nid += n
         sig.append(((k, p), c))
     if nid >= 2**24:
@@ -191,7 +207,7 @@ def run_chain(case, ctx):
     viols += sv[:2]
     nontrivial = len(chain) >= 2 or (n_lead >= 2 and any(k >= 2 for k, _ in chosen))
     return result({"D": D, "n_lead": n_lead, "lead": lead, "sp": sp, "sig": sig, "chain": chain}, viols, nontrivial, evals=evals,
-                  obs={"relayout_steps": evals, "invariant_evaluations": _struct.evaluations - inv0}, hist={"D": D, "n_lead": n_lead, "ops": [c.split(":")[0] for c in chain], "ntypes": nt, "kmax": max(k for k, _ in chosen)}, sample={"sig": sig, "lead": lead, "sp": sp, "chain": chain})
+                  obs={"relayout_steps": evals, "invariant_evaluations": _struct.evaluations - inv0}, hist={"D": D, "rep": rep, "n_lead": n_lead, "ops": [c.split(":")[0] for c in chain], "ntypes": nt, "kmax": max(k for k, _ in chosen)}, sample={"sig": sig, "lead": lead, "sp": sp, "chain": chain})
 
 
 def pick_op(rng, cur):
